@@ -104,11 +104,11 @@ fn continuation(h: u8, words: &[String], env: &Env, seed: u64) -> Vec<Op> {
     // restart, retype it
     let mut g = Gen::new(env, seed, Tier::Thorough);
     let mut ops = Vec::new();
-    for w in words.iter().take(4) {
+    for (i, w) in words.iter().take(2).enumerate() {
         g.type_and_refresh(&mut ops, h, w);
         ops.push(Op::Finish { h });
         let core: String = w.chars().filter(|c| c.is_ascii_alphabetic()).collect();
-        if !core.is_empty() {
+        if i == 0 && !core.is_empty() {
             let s = format!("{}{}", core, g.short_suffix());
             g.type_and_refresh(&mut ops, h, &s);
             ops.push(Op::Finish { h });
@@ -124,7 +124,7 @@ fn continuation(h: u8, words: &[String], env: &Env, seed: u64) -> Vec<Op> {
     ops
 }
 
-fn variants_for(env: &Env, base: &Plan, words: &[String], j: usize, len: usize, seed: u64) -> Vec<Plan> {
+fn variants_for(env: &Env, base: &Plan, words: &[String], j: usize, len: usize, seed: u64, with_corpus: bool) -> Vec<Plan> {
     let h = base.ops[j].host().unwrap_or(0);
     let cont = continuation(h, words, env, seed);
     let mut out = Vec::new();
@@ -160,7 +160,7 @@ fn variants_for(env: &Env, base: &Plan, words: &[String], j: usize, len: usize, 
         out.push(mk(vec![Op::Arm { fault: f }], vec![Op::Heal, Op::Restart { h }]));
     }
     // every corpus document in either file, then a restart / a reload
-    for (_, doc) in corpus() {
+    for (_, doc) in corpus().into_iter().filter(|_| with_corpus) {
         out.push(mk(vec![], vec![Op::SetFile { file: FileId::Store, st: doc.clone(), mt: Mt::Now }, Op::Restart { h }]));
         out.push(mk(vec![], vec![Op::SetFile { file: FileId::Autocorrect, st: doc.clone(), mt: Mt::Now }, Op::Restart { h }]));
         out.push(mk(
@@ -241,7 +241,7 @@ pub fn run_enumeration(env: &Arc<Env>, known: &Arc<KnownFindings>, cfg: &BatchCf
                         for (si, (j, _)) in saves.iter().enumerate() {
                             let len = store_len_after(&env, &base, *j);
                             n_pref += len as u64 + 1;
-                            let vars = variants_for(&env, &base, &words, *j, len, seed ^ (si as u64 + 1));
+                            let vars = variants_for(&env, &base, &words, *j, len, seed ^ (si as u64 + 1), si + 1 == saves.len());
                             for p in vars {
                                 if stop.load(Ordering::SeqCst) {
                                     break;
